@@ -309,12 +309,18 @@ def unknown_level(n, stats, viol):
     base = cobyqa.minimize(f, np.zeros(n), options={"maxfev": 30})
     for where, kw in (("option", {"options": {"maxfev": 30, "unknown_option": 3}}),
                       ("constant", {"options": {"maxfev": 30}, "unknown_constant": 2.0})):
-        with warnings.catch_warnings(record=True) as w:
-            warnings.simplefilter("always")
-            res = cobyqa.minimize(f, np.zeros(n), **kw)
+        case = {"part": "unknown", "n": n}
+        try:
+            with warnings.catch_warnings(record=True) as w:
+                warnings.simplefilter("always")
+                res = cobyqa.minimize(f, np.zeros(n), **kw)
+        except Exception as e:  # noqa
+            viol.setdefault(f"unknown-{where}-raises", {
+                "key": f"unknown-{where}-raises", "case": case,
+                "what": f"an unknown {where} name made minimize raise {type(e).__name__}: {str(e)[:80]}"})
+            continue
         stats["unknown_runs"] = stats.get("unknown_runs", 0) + 1
         rw = [x for x in w if issubclass(x.category, RuntimeWarning)]
-        case = {"part": "unknown", "n": n}
         if not rw:
             viol.setdefault(f"unknown-{where}-no-warning", {"key": f"unknown-{where}-no-warning", "case": case,
                                                            "what": f"unknown {where} name produced no RuntimeWarning"})
@@ -322,6 +328,37 @@ def unknown_level(n, stats, viol):
                 and res.status == base.status):
             viol.setdefault(f"unknown-{where}-alters-run", {"key": f"unknown-{where}-alters-run", "case": case,
                                                            "what": f"an unknown {where} name changed the run"})
+    # unknown constant names that happen to be parameter names of internal functions (the constants are forwarded
+    # as keyword arguments): a warning, the same run - with and without constraints (different solvers are reached)
+    from scipy.optimize import LinearConstraint, NonlinearConstraint
+    probs = {"unconstrained": {}, "linear": {"constraints": LinearConstraint(np.ones((1, n)), -np.inf, 1.0)},
+             "nonlinear": {"constraints": NonlinearConstraint(lambda x: float(np.sum(np.asarray(x) ** 2)), -np.inf, 4.0)}}
+    for pname, pk in probs.items():
+        with warnings.catch_warnings():
+            warnings.simplefilter("ignore")
+            ref = cobyqa.minimize(f, np.zeros(n), options={"maxfev": 25}, **pk)
+        for name in ("delta", "xl", "xu", "grad", "hess_prod", "debug", "aub", "bub", "aeq", "beq", "const", "xpt",
+                     "step", "x", "pb", "k_new", "penalty"):
+            case = {"part": "unknown", "n": n, "name": name, "problem": pname}
+            try:
+                with warnings.catch_warnings(record=True) as w:
+                    warnings.simplefilter("always")
+                    res = cobyqa.minimize(f, np.zeros(n), options={"maxfev": 25}, **pk, **{name: 1.0})
+                outcome = "returned"
+            except Exception as e:  # noqa
+                outcome = type(e).__name__ + ": " + str(e)[:80]
+            stats["unknown_runs"] = stats.get("unknown_runs", 0) + 1
+            if outcome != "returned":
+                viol.setdefault("unknown-constant-raises", {
+                    "key": "unknown-constant-raises", "case": case,
+                    "what": f"the unknown constant name '{name}' ({pname} problem) made minimize end with {outcome}"})
+                continue
+            if not any(issubclass(x.category, RuntimeWarning) for x in w):
+                viol.setdefault("unknown-constant-no-warning", {"key": "unknown-constant-no-warning", "case": case,
+                                                                "what": f"unknown constant name '{name}': no RuntimeWarning"})
+            if not (np.array_equal(res.x, ref.x) and res.nfev == ref.nfev and res.fun == ref.fun and res.status == ref.status):
+                viol.setdefault("unknown-constant-alters-run", {"key": "unknown-constant-alters-run", "case": case,
+                                                                "what": f"the unknown constant name '{name}' changed the run"})
     for cfg in ({"unknown_o1": 1}, {"unknown_c1": 1.0}, {"unknown_o1": 1, "maxfev": 7}, {"unknown_c1": 1, "low_ratio": 0.2}):
         judge(cfg, n, stats, viol)
 
